@@ -228,9 +228,9 @@ func ruleC16Cap(cx *Ctx) {
 			return
 		}
 		capV := b.Y
-		if !atomicFieldLoad(b.X, ci) {
+		if !loadOrHandedIn(cx, b.X, ci, queuePkg) {
 			capV = b.X
-			if !atomicFieldLoad(b.Y, ci) {
+			if !loadOrHandedIn(cx, b.Y, ci, queuePkg) {
 				cx.R.Check(false, rule, name, "new limit", cx.P.where(in), "the new producer limit is consumerIndex + chunk capacity")
 				return
 			}
